@@ -25,6 +25,7 @@ import (
 	"verifharness/sims/wasifs"
 	"verifharness/tape"
 	w "verifharness/wasiguest"
+	"verifharness/wasmb"
 )
 
 type c18 struct{}
@@ -238,6 +239,11 @@ func runScript(engine string, script []call, shared, sockFirst bool) (trace []st
 	defer g.Mod.Close(ctx)
 	pauses := 0
 	for i, c := range script {
+		if c.Name == deepCall {
+			// judged per engine (where a recursion ends differs between the engines by design): not a trace line
+			lastDeep = deepRecursion(engine, c.Args[0])
+			continue
+		}
 		if sockFirst && c.Name == "clock_time_get" && pauses < 3 {
 			// the third instance runs on a slower host: real time passes between its clock readings (three
 			// pauses of 3 ms at most); what the guest reads must not show it
@@ -290,6 +296,48 @@ func runScript(engine string, script []call, shared, sockFirst bool) (trace []st
 	return trace, nil
 }
 
+// deepCall is a pseudo call of a script: a second, WASI-only guest recurses to the given depth and exits
+// through proc_exit at the bottom.  Where the recursion ends (the exit code, or the engine's stack
+// overflow) is a property of the engine alone: the same in every process, whatever the host's memory
+// limits or environment.
+const deepCall = "__deep_recursion"
+
+// lastDeep: the outcome of the deep recursion of the script runScript ran last.
+var lastDeep string
+
+var deepBin = func() []byte {
+	m := &wasmb.Module{}
+	i32 := []wasmb.ValType{wasmb.I32}
+	pexit := m.ImportFunc("wasi_snapshot_preview1", "proc_exit", i32, nil)
+	// rec(n): n == 0 ? proc_exit(7) : rec(n-1) + 1
+	c := (&wasmb.Code{}).LocalGet(0).I32Eqz().If(wasmb.BlockVoid).I32Const(7).Call(pexit).End().
+		LocalGet(0).I32Const(1).I32Sub().Call(1).I32Const(1).I32Add()
+	m.AddFunc(i32, i32, nil, c.B, "rec")
+	return m.Encode()
+}()
+
+func deepRecursion(engine string, depth uint64) string {
+	ctx := context.Background()
+	var rc wazero.RuntimeConfig
+	if engine == "interpreter" {
+		rc = wazero.NewRuntimeConfigInterpreter()
+	} else {
+		rc = wazero.NewRuntimeConfigCompiler()
+	}
+	rt := wazero.NewRuntimeWithConfig(ctx, rc)
+	defer rt.Close(ctx)
+	wasi_snapshot_preview1.MustInstantiate(ctx, rt)
+	mod, err := rt.InstantiateWithConfig(ctx, deepBin, wazero.NewModuleConfig().WithName(""))
+	if err != nil {
+		panic(fmt.Sprintf("harness: %v", err))
+	}
+	_, err = mod.ExportedFunction("rec").Call(ctx, depth)
+	if err == nil {
+		return fmt.Sprintf("deep recursion(%d) -> returned", depth)
+	}
+	return fmt.Sprintf("deep recursion(%d) -> %s", depth, strings.SplitN(err.Error(), "\n", 2)[0])
+}
+
 func hashTrace(tr []string) string {
 	h := sha256.New()
 	for _, l := range tr {
@@ -317,6 +365,11 @@ func firstDiffLine(a, b []string) string {
 
 func (c18) Run(t *tape.Tape, cfg sim.Config) (res sim.Result) {
 	script := genScript(t)
+	if cfg.Class == "processes" && t.Chance(1, 3) {
+		// (a depth whose native stack lies between a few megabytes and the compiler's ceiling)
+		script = append(script, call{Name: deepCall, Args: []uint64{uint64(200000 + t.Choose(200000))}})
+		res.Stat("probe.deep_recursion_in_the_script", 1)
+	}
 	var names []string
 	hasClock, hasRand, hasPoll := false, false, false
 	for _, c := range script {
@@ -399,6 +452,8 @@ func (c18) Run(t *tape.Tape, cfg sim.Config) (res sim.Result) {
 	}{
 		{env: []string{"TZ=Pacific/Kiritimati", "HOME=/nonexistent", "SECRET=hunter2", "GOMAXPROCS=1"}, args: []string{"--secret-arg", "a b"}, stdin: "stdin-data-from-host\n", cwd: "/"},
 		{env: []string{"TZ=UTC", "LANG=xx", "GOMAXPROCS=7", "WASI_X=1"}, args: nil, stdin: "", cwd: os.TempDir()},
+		// a memory-limited host (container): soft limit, eager collector
+		{env: []string{"GOMEMLIMIT=64MiB", "GOGC=25", "GOMAXPROCS=2"}, args: []string{"x"}, stdin: "", cwd: "/"},
 	}
 	v := variants[t.Choose(len(variants))]
 	for _, eng := range []string{"interpreter", "compiler"} {
@@ -419,9 +474,19 @@ func (c18) Run(t *tape.Tape, cfg sim.Config) (res sim.Result) {
 			return
 		}
 		var childTrace []string
+		childDeep := ""
 		for _, ln := range strings.Split(out.String(), "\n") {
 			if strings.HasPrefix(ln, "T ") {
 				childTrace = append(childTrace, ln[2:])
+			}
+			if strings.HasPrefix(ln, "D ") {
+				childDeep = ln[2:]
+			}
+		}
+		if last := script[len(script)-1]; last.Name == deepCall {
+			if here := deepRecursion(eng, last.Args[0]); childDeep != here {
+				res.Fail("trace-differs", "a WASI-only guest recursing %d deep on the %s: %q in this process, %q in a child process with environment %v", last.Args[0], eng, here, childDeep, v.env)
+				return
 			}
 		}
 		if hashTrace(childTrace) != hashTrace(ref) {
@@ -531,6 +596,9 @@ func childMain(args []string) {
 	}
 	for _, l := range tr {
 		fmt.Println("T " + l)
+	}
+	if lastDeep != "" {
+		fmt.Println("D " + lastDeep)
 	}
 }
 
